@@ -118,7 +118,8 @@ def parse(text):
 def render(items):
     out = []
     for kind, it in items:
-        out.append(it.text() if kind == 'A' else it + '\n')
+        # record names are six columns wide (propka compares 'TER   ')
+        out.append(it.text() if kind == 'A' else it.ljust(6) + '\n')
     return ''.join(out)
 
 
